@@ -19,7 +19,7 @@ from ..refmodel import Model, mrec
 from ..universe import recs_from_json, recs_to_json, strings
 
 PROP = "C14"
-BASE_CLASSES = ["a", "1", " ", "\\", "'", "{", "}", "#", "/", ":", ".", "^", "$", "|", "%", "é", "😀"]
+BASE_CLASSES = ["a", "1", " ", "\\", "'", "{", "}", "#", "/", ":", ".", "^", "$", "|", "%", "@", "é", "😀"]
 EPM_EXTRA = ['"', "<", ">", "\t", "\n", "\r"]
 FIELDS = ["prefix", "uri_prefix", "prefix_synonym", "uri_prefix_synonym", "pattern"]
 _TMP = None
